@@ -4,4 +4,7 @@
 //! A rule that does not fire on its control makes the check end with CHECK-ERROR.
 #![allow(dead_code, unused_variables, unused_mut, clippy::all)]
 
+pub mod circuit;
+pub mod gate;
+pub mod linalg;
 pub mod phase;
